@@ -601,6 +601,9 @@ class Engine(ValueOps, ExprOps, CallOps, StmtOps):
         fi = self.repo.functions[key]
         con = self.contracts[key]
         res = FunctionResult(key, fi)
+        import itertools
+        from . import state as _state
+        _state._counter = itertools.count()     # deterministic symbol names: identical code => identical VC text
         stack = [[]]
         seen_paths = 0
         t0 = time.time()
